@@ -7,6 +7,7 @@ import Lockable.Proofs.Evict
 import Lockable.Proofs.Term
 import Lockable.Proofs.Returns
 import Lockable.Proofs.Holds
+import Lockable.Proofs.Own
 namespace Lockable
 
 theorem lookup_not_list (s : State) (h k : Nat) (l : List Nat) : (lookup s h k).2 ≠ .list l := by
@@ -167,15 +168,27 @@ theorem C07_cooperative_returns (a : Api) (v : Variant) (h k n h0 : Nat) (hn : 1
     Returned (a.lock v h k (.soft n []) h0).2.res :=
   lock_cooperative_returns a v h k n h0 hn hi hfr hlt hfree hlen
 
-/-- **"... returns with the requested key locked"**: whenever a lock call (any variant, any limit, any callback script)
-answers with a guard, the caller's handle is a holder of exactly the key that was asked for. Together with
-`C07_cooperative_returns` (the call comes back) and `C01_*` (holders are exclusive) this is the full sentence. -/
+/-- **"... returns with the requested key locked"**: whenever the lock call itself (any variant, any limit, any callback script)
+answers with a guard, the caller's handle is a holder of exactly the key that was asked for and the key's mutex names it as its owner.
+Together with `C07_cooperative_returns` (the call comes back) and `C01_*` (holders are exclusive) this is the full sentence.
+Scope: the call `Api.lock`; a call that answered `pending` or was suspended in its callback completes through a later `poll`
+(`acquire` resp. `Api.resume`, which ends in `Api.lock` again) — for those the statement is `acquire_iff_grantable` / this theorem
+applied to the resumed call. -/
 theorem C07_guard_means_locked (a : Api) (v : Variant) (h k : Nat) (limit : Limit) (h0 : Nat) (hi : Inv a.s)
     (hfr : a.s.hs h = none) :
     match (a.lock v h k limit h0).2.res with
-    | .guard => ∃ hd, (a.lock v h k limit h0).1.s.hs h = some hd ∧ hd.key = k ∧ hd.st = .holding
-    | _ => True :=
-  lock_guard_holds a v h k limit h0 hi hfr
+    | .guard => ∃ hd, (a.lock v h k limit h0).1.s.hs h = some hd ∧ hd.key = k ∧ hd.st = .holding ∧
+        hold (a.lock v h k limit h0).1.s h k = true
+    | _ => True := by
+  have h1 := lock_guard_holds a v h k limit h0 hi hfr
+  have hi' := inv_lock a v h k limit h0 hi
+  cases hr : (a.lock v h k limit h0).2.res <;> simp only [hr] at h1 ⊢
+  obtain ⟨hd, e1, e2, e3⟩ := h1
+  refine ⟨hd, e1, e2, e3, ?_⟩
+  obtain ⟨m, hm, _⟩ := eeid_inv (hi'.live h hd e1)
+  have := hi'.guardHolds h hd e1 (by simp [e3, HSt.isGuard]) m hm
+  rw [e2] at hm
+  unfold hold; rw [hm]; simp [this]
 
 /-- non-vacuity: limit 2, three valued entries one of which is locked: exactly two candidates, in order -/
 example :
